@@ -78,7 +78,7 @@ impl W {
 }
 fn cnt16(n: usize, what: &str) -> Result<u16, String> { u16::try_from(n).map_err(|_| format!("{what}: count {n} does not fit u16")) }
 
-struct E { pool: PoolB, rng: Rng, canonical: bool,
+struct E { pool: PoolB, rng: Rng, canonical: bool, major: u16,
     /// only with `emit_front(.., front != [])`: the constant-collecting dry run sizes one-slot `ldc`s with 2 bytes (the
     /// real run decides with the real indices), so that a method that only fits with short `ldc`s is not refused early
     dry_short_ldc: bool }
@@ -91,7 +91,7 @@ pub fn emit(c: &Class, layout: &Layout) -> Result<Vec<u8>, String> { emit_front(
 /// `front == []` is exactly `emit`. Constants in `front` that the class never uses become unused pool entries.
 pub fn emit_front(c: &Class, layout: &Layout, front: &[Const]) -> Result<Vec<u8>, String> {
     let mk = |assigned: Option<Vec<Vec<u16>>>, ids: HashMap<K, Id>, entries: Vec<K>, bsm: Vec<(Id, Vec<Id>)>| E {
-        pool: PoolB { ids, entries, bsm, assigned, rng: Rng::new(layout.seed ^ 0x51ab) }, rng: Rng::new(layout.seed ^ 0xe317), canonical: layout.canonical, dry_short_ldc: !front.is_empty(),
+        pool: PoolB { ids, entries, bsm, assigned, rng: Rng::new(layout.seed ^ 0x51ab) }, rng: Rng::new(layout.seed ^ 0xe317), canonical: layout.canonical, major: c.major, dry_short_ldc: !front.is_empty(),
     };
     // dry run: collect constants
     let mut e = mk(None, HashMap::new(), vec![], vec![]);
@@ -486,7 +486,18 @@ impl E {
                 let x = self.attr(name, b.b); a.push(x);
             }
         }
-        if let Some(frames) = &c.frames {
+        // CLDC `StackMap` (pre-50 class files): the same facts as full StackMapTable frames, with absolute offsets and no prescribed entry order
+        let cldc = self.major < 50 && c.frames.as_ref().is_some_and(|f| !f.is_empty() && f.iter().all(|f| matches!(f.kind, FrameKind::Full { .. })));
+        if let (true, Some(frames)) = (cldc, &c.frames) {
+            let mut order: Vec<usize> = (0..frames.len()).collect();
+            if !self.canonical { for i in (1..order.len()).rev() { let j = self.rng.below(i + 1); order.swap(i, j); } }
+            let mut b = W { b: vec![] }; b.u16(cnt16(frames.len(), "frames")?);
+            for i in order {
+                let f = &frames[i]; let FrameKind::Full { locals, stack } = &f.kind else { unreachable!() };
+                b.u16(off(f.at)?); b.u16(cnt16(locals.len(), "frame locals")?); for t in locals { self.vtype(&mut b, t, &offs)?; } b.u16(cnt16(stack.len(), "frame stack")?); for t in stack { self.vtype(&mut b, t, &offs)?; }
+            }
+            let x = self.attr("StackMap", b.b); a.push(x);
+        } else if let Some(frames) = &c.frames {
             let mut b = W { b: vec![] }; b.u16(cnt16(frames.len(), "frames")?);
             let mut prev: i64 = -1;
             for f in frames {
